@@ -215,6 +215,27 @@ func ReactScenarios() []History {
 	}
 	add("fractions-of-a-unit-and-of-a-second", smallParams(), map[string]int64{"c2": 400}, ops...)
 
+	// a frequency well above the timeout leaves idle blocks between the expiry of a batch and the next one:
+	// pause there and start again before the block the next batch is queued for (the cadence goes on), pause
+	// there and start after it (the batch is due at the start), for a user's context and a module's
+	ops = registry(map[string]int64{"p1": 5, "p2": 3})
+	ops = append(ops,
+		Ev{Name: "Call", Signer: "c1", Svc: "s1", Provs: both, Cap: 10, Timeout: 2, Rep: true, Freq: 5, Total: 4},                 // 1: batches at 1, 6, 11, 16
+		Ev{Name: "Call", Signer: "c1", Svc: "s1", Provs: both, Cap: 10, Timeout: 2, Rep: true, Freq: 5, Total: 4},                 // 2
+		Ev{Name: "ModCreate", Signer: "c1", Svc: "s1", Provs: both, Cap: 10, Timeout: 1, Rep: true, Freq: 4, Total: 4, Thr: 1}, // 3: at 1, 5, 9, 13
+		eb(1), eb(1), eb(1), // height 4: batch 1 of 1 and 2 expired at 3
+		Ev{Name: "Pause", Signer: "c1", ID: 1},
+		Ev{Name: "Pause", Signer: "c1", ID: 2},
+		Ev{Name: "ModPause", Signer: "c1", ID: 3},
+		Ev{Name: "ModStart", Signer: "c1", ID: 3}, // at once: its next batch stays at 5
+		eb(1),
+		Ev{Name: "Start", Signer: "c1", ID: 1}, // height 5, before 6: the batch queued for 6 is the next one
+		eb(1), eb(1), eb(1),
+		Ev{Name: "Start", Signer: "c1", ID: 2}, // height 8, after 6: its queue entry was handled while it was paused
+		eb(1), eb(1), eb(1), eb(1), eb(1), eb(1), eb(1), eb(1), eb(1), eb(1), eb(1), eb(1),
+	)
+	add("pause-in-the-idle-gap", smallParams(), map[string]int64{"c1": 400}, ops...)
+
 	return hs
 }
 
